@@ -6,6 +6,9 @@ import subprocess
 VERIF = os.path.dirname(os.path.abspath(__file__))
 REPO = os.environ.get("MB2_REPO", "/repo").rstrip("/")
 ALT = REPO != "/repo"
+# several alternative repositories can be checked at the same time (mutate.py): each gets
+# its own generated manifest and target directories
+ALT_TAG = os.environ.get("MB2_ALT_TAG", "")
 NCPU = min(16, os.cpu_count() or 1)
 
 
@@ -14,7 +17,7 @@ def _alt_harness():
     /repo holding a seeded change) a generated copy of the harness manifest with the
     paths replaced is used, with its own target directories, so that seeded changes can
     be tried without touching /repo (e.g. while a long run uses it)."""
-    d = os.path.join(VERIF, ".alt-harness")
+    d = os.path.join(VERIF, ".alt-harness" + ALT_TAG)
     os.makedirs(d, exist_ok=True)
     src = os.path.join(VERIF, "harness")
     man = open(os.path.join(src, "Cargo.toml")).read().replace('"/repo/', '"' + REPO + '/')
@@ -56,10 +59,10 @@ ENGINES = {
 def target_dir(engine):
     e = ENGINES[engine]
     if e["tool"] == "miri":
-        return os.path.join(VERIF, "target-alt-miri" if ALT else "target-miri")
+        return os.path.join(VERIF, "target-alt" + ALT_TAG + "-miri" if ALT else "target-miri")
     if e["tool"] == "asan":
-        return os.path.join(VERIF, "target-alt-asan" if ALT else "target-asan")
-    return os.path.join(VERIF, ("target-alt-" if ALT else "target-") + ("al" if e.get("alloc") else "nd" if not e["features"] else "std"))
+        return os.path.join(VERIF, "target-alt" + ALT_TAG + "-asan" if ALT else "target-asan")
+    return os.path.join(VERIF, ("target-alt" + ALT_TAG + "-" if ALT else "target-") + ("al" if e.get("alloc") else "nd" if not e["features"] else "std"))
 
 
 def engine_env(engine):
